@@ -637,6 +637,12 @@ func buildGateway(t *sim.Tape) []gwExchange {
 			switch r := o.(type) {
 			case *gateway.RPCSendV2Blocks:
 				r.Max = uint64(1 + t.Choose(4))
+				if t.Chance(1, 3) {
+					r.History = make([]types.BlockID, pick(t, 32, 32, 31))
+					for k := range r.History {
+						r.History[k] = types.BlockID{byte(k), byte(i), 7}
+					}
+				}
 				if len(r.History) > 32 {
 					r.History = r.History[:32]
 				}
@@ -653,6 +659,13 @@ func buildGateway(t *sim.Tape) []gwExchange {
 			case *gateway.RPCSendHeaders:
 				r.Max = uint64(1 + len(r.Headers))
 			case *gateway.RPCSendTransactions:
+				if t.Chance(1, 3) {
+					// as many hashes as one request may name, and one fewer
+					r.Hashes = make([]types.Hash256, pick(t, 100, 100, 99))
+					for k := range r.Hashes {
+						r.Hashes[k] = types.Hash256{byte(k), byte(i), 9}
+					}
+				}
 				if len(r.Hashes) > 100 {
 					r.Hashes = r.Hashes[:100]
 				}
